@@ -12,6 +12,8 @@ from geostructures import (Coordinate, GeoBox, GeoCircle, GeoEllipse, GeoLineStr
                            GeoRing, MultiGeoLineString, MultiGeoPoint, MultiGeoPolygon, FeatureCollection, Track)
 from geostructures.calc import haversine_distance_meters as hav, inverse_haversine_degrees as dest  # noqa: E402
 from shapes import mk_dt  # noqa: E402
+import gen_bounds  # noqa: E402  (tools/: translator tie for bounds / rectangles / farthest-vertex circles)
+from lib import REPO  # noqa: E402
 
 R_EARTH = 6_371_000.0
 
@@ -103,6 +105,8 @@ def true_extent_curve(center, radius_fn, a0, a1, n=3600):
 def main():
     ck = Check('C09')
     ck.build_theories(['theories/Props/C09.vo', 'theories/Props/C09b.vo', 'theories/Corr/BoundsK.vo'])
+    rep = gen_bounds.main(REPO, os.path.join(ck.rundir, 'BoundsGen.v'))   # bounds / rectangles / circles regenerated from the source ...
+    ck.gen('BoundsGen.v', rep, 'BoundsGenEq.v')                           # ... proved equal to BoundsM / ShapeM.multi_bounds for all arguments
     ck.props('Props/C09.v')
     ck.props('Props/C09b.v')      # D10 refuted with the real haversine of C07 (Reals + Interval)
     rng = ck.rng
